@@ -61,21 +61,245 @@ def split_entry(I, e):
     return out
 
 
-def ranges(run, repo):
+# ---------------------------------------------------------------------------------------------------------------------
+# the helper under analysis and the ways identifiers are handed to it
+
+ROLES = (('objs', 0), ('parent_obj', 1), ('delimiter', 2), ('format', 3))
+
+
+def range_anchor(repo):
+    """(module, function, {role: parameter name}).  The helper is private: what the callers rely on is the order
+    (collection, parent object, delimiter, output form); a parameter that still carries its documented name is taken
+    by name, otherwise the one at the documented position.  A signature that offers neither is a moved anchor."""
     m = repo.module('pmutt.cantera')
     fn = m.functions.get('_get_omkm_range')
     if fn is None:
         raise AnchorError('pmutt.cantera._get_omkm_range not found')
-    run.fn('pmutt.cantera._get_omkm_range')
+    names = [p.arg for p in fn.args.args]
+    if fn.args.posonlyargs or len(names) < len(ROLES):
+        raise AnchorError('pmutt.cantera._get_omkm_range: parameters (collection, parent object, delimiter, output '
+                          'form) expected, found (%s)' % ', '.join(names))
+    par = {role: (role if role in names else names[pos]) for role, pos in ROLES}
+    if len(set(par.values())) != len(ROLES):
+        raise AnchorError('pmutt.cantera._get_omkm_range: parameters (%s) cannot be told apart' % ', '.join(names))
+    return m, fn, par
+
+
+def call_range(I, anchor, objs, form=None, delimiter=None, parent=None):
+    m, fn, par = anchor
+    kw = {par['objs']: objs}
+    if form is not None:
+        kw[par['format']] = form
+    if delimiter is not None and delimiter != '_':
+        kw[par['delimiter']] = delimiter
+    if parent is not None:
+        kw[par['parent_obj']] = parent
+    return I.call_function(m, fn, [], kw)
+
+
+GIVEN_AS = ('strings', 'objects with id', 'objects with name', 'strings and objects mixed', 'tuple of strings')
+
+
+def given_as(ids, how):
+    """the collection handed over: the identifiers themselves, objects that carry them as ``id``, objects without
+    ``id`` that carry them as ``name``, all three in one collection, a tuple"""
+    def with_id(k, i):
+        return Obj('o%d' % k, attrs={'id': i})
+
+    def with_name(k, i):
+        o = Obj('n%d' % k, attrs={'name': i})
+        o.missing.add('id')
+        return o
+    if how == 'strings':
+        return ListV(list(ids))
+    if how == 'tuple of strings':
+        t = ListV(list(ids))
+        t.frozen = True
+        return t
+    if how == 'objects with id':
+        return ListV([with_id(k, i) for k, i in enumerate(ids)])
+    if how == 'objects with name':
+        return ListV([with_name(k, i) for k, i in enumerate(ids)])
+    return ListV([(i, with_id(k, i), with_name(k, i))[k % 3] for k, i in enumerate(ids)])
+
+
+def spelling_decided(I, what, m):
+    """a branch on the characters of a symbolic identifier or token was taken as 'no' by the interpreter (text hazard):
+    the abstract result then holds for some spellings only, so the symbolic instance is not decided"""
+    if I.hazards:
+        node, txt = I.hazards[0]
+        raise Unsupported('%s: the outcome depends on how a symbolic text is spelled (%s); the concrete instances '
+                          'were decided, the symbolic ones are not' % (what, txt), node, m.relpath)
+
+
+# ---------------------------------------------------------------------------------------------------------------------
+# ranges, concrete identifiers
+
+def expand(I, entries, delim):
+    """reference reading of the notation: each entry is a quoted identifier or a quoted ``first to last``; a range
+    stands for every integer suffix from first to last under the common prefix, the ends spelled as written and the
+    members between them padded like the shorter end.  None when an entry cannot be read."""
+    out = []
+    for e in entries:
+        e = I.plain(e)
+        if not isinstance(e, str) or len(e) < 2 or e[0] != '"' or e[-1] != '"':
+            return None
+        ends = e[1:-1].split(' to ')
+        if len(ends) == 1:
+            out.append(ends[0])
+            continue
+        if len(ends) != 2:
+            return None
+        (ha, sa, fa), (hb, sb_, fb) = ends[0].rpartition(delim), ends[1].rpartition(delim)
+        if (ha, sa) != (hb, sb_) or not (fa.isdigit() and fb.isdigit()) or int(fa) > int(fb):
+            return None
+        pad = min(len(fa), len(fb))
+        for k_ in range(int(fa), int(fb) + 1):
+            f_ = fa if k_ == int(fa) else fb if k_ == int(fb) else str(k_).zfill(pad)
+            out.append(ha + sa + f_)
+    return out
+
+
+def sixty():
+    ids = ['rxn_%04d' % k for k in range(1, 41) if k % 7] + ['s_%04d' % k for k in (9996, 9997, 9999)] + \
+        ['s_%d' % k for k in range(10000, 10012)] + ['rxn_0003', 'rxn_0004', 's_10000', 'q_0000', 'q_99999', 'q_99998']
+    # deterministic shuffle
+    return [ids[(k * 37) % len(ids)] for k in range(len(ids))]
+
+
+CONCRETE_IDS = [
+    # (label, delimiter, identifiers)
+    ('four to five digits', '_', ['r_9998', 'r_9999', 'r_10000', 'r_10001']),
+    ('four to five digits, descending', '_', ['r_10001', 'r_10000', 'r_9999', 'r_9998']),
+    ('five digits first, then four', '_', ['r_10000', 'r_9999']),
+    ('five digits', '_', ['r_10000', 'r_10001', 'r_10003']),
+    ('two prefixes, mixed order', '_', ['s_0007', 'r_0002', 's_0008', 'r_0001', 'r_0004']),
+    ('two prefixes of different widths', '_', ['s_12000', 's_0002', 's_0003', 'r_0001']),
+    ('three prefixes, widths mixed under each', '_', ['s_12000', 'r_0001', 't_10000', 's_0002', 't_9999', 'r_0002',
+                                                      's_0003', 't_9997']),
+    ('one duplicate, one hole', '_', ['r_0001', 'r_0001', 'r_0002', 'r_0003', 'r_0005']),
+    ('duplicates and holes, two prefixes', '_', ['s_0010', 'r_0002', 's_0012', 'r_0002', 'r_0004', 's_0012']),
+    ('all equal', '_', ['r_0005', 'r_0005']),
+    ('duplicate inside a run', '_', ['r_0001', 'r_0002', 'r_0002', 'r_0003']),
+    ('duplicate at the end of a run', '_', ['r_0003', 'r_0001', 'r_0002', 'r_0003']),
+    ('two duplicates, two holes', '_', ['r_0002', 'r_0002', 'r_0004', 'r_0004', 'r_0006', 'r_0007']),
+    ('single', '_', ['r_0042']),
+    ('empty prefix', '_', ['0003', '0001', '0002', '0007']),
+    ('prefix containing the delimiter', '_', ['a_b_0002', 'a_b_0001', 'a_c_0001', 'a_b_0004', 'a_0003']),
+    ('prefix with digits', '_', ['r2_0001', 'r2_0002', 'r10_0001', 'r2_0003']),
+    ('suffixes 0 and 99999', '_', ['r_0000', 'r_99999', 'r_99998', 'r_0001']),
+    ('delimiter -', '-', ['rxn-0002', 'rxn-0001', 's-10000', 's-9999', 'a_b-0004']),
+    ('delimiter .', '.', ['rxn.0002', 'rxn.0004', 'rxn.0003', 's.0001', 's.0001']),
+    ('sixty identifiers', '_', sixty()),
+]
+
+
+ALL_WAYS = ('four to five digits, descending', 'two prefixes, mixed order', 'one duplicate, one hole',
+            'three prefixes, widths mixed under each', 'empty prefix', 'delimiter -')
+
+
+def ranges_concrete(run, repo, anchor, thorough):
+    m, fn, par = anchor
+    cases = list(CONCRETE_IDS)
+    if thorough:
+        for k, perm in enumerate(itertools.permutations(['r_9998', 'r_9999', 'r_10000', 'r_10001', 's_0001'])):
+            cases.append(('orderings across 9999/10000 #%d' % k, '_', list(perm)))
+        for k, ms in enumerate(itertools.combinations_with_replacement((9997, 9998, 9999, 10000, 10001, 10003), 4)):
+            cases.append(('multisets across 9999/10000 #%d' % k, '_', ['r_%04d' % v for v in reversed(ms)]))
+    n = 0
+    for k, (label, delim, ids_) in enumerate(cases):
+        # every way of handing the identifiers over for the lists that differ in kind, strings and one more in turn for
+        # the others
+        hows = GIVEN_AS if label in ALL_WAYS else GIVEN_AS[:1] if '#' in label else \
+            (GIVEN_AS[0], GIVEN_AS[1 + k % 4])
+        for how in hows:
+            I = Interp(repo)
+            lst = call_range(I, anchor, given_as(ids_, how), 'list', delim)
+            st = call_range(I, anchor, given_as(ids_, how), None, delim)
+            n += 1
+            tag = '%s, %s' % (label, how)
+            if isinstance(lst, Raised) or isinstance(st, Raised):
+                run.fail('REF.range', 'cantera._get_omkm_range', 'raises', '[%s] identifiers %s raise %s'
+                         % (tag, ids_[:8], show(lst if isinstance(lst, Raised) else st)), m, fn)
+                continue
+            got = expand(I, lst.items, delim) if isinstance(lst, ListV) else None
+            dup = len(set(ids_)) != len(ids_)
+            ok = got is not None and set(got) == set(ids_) and (dup or sorted(got) == sorted(ids_))
+            why = ''
+            if got is not None and not ok:
+                why = ' (not given: %s; lost: %s)' % (sorted(set(got) - set(ids_))[:4], sorted(set(ids_) - set(got))[:4])
+            run.check(ok, 'REF.range', 'cantera._get_omkm_range', 'concrete identifiers: ' + label,
+                      '[%s] identifiers %s come back as %s, which does not denote exactly the identifiers given%s'
+                      % (tag, ids_[:10], show(lst, 160), why), m, fn,
+                      sample='%s -> %s' % (ids_[:8], show(lst, 100)) if how == 'strings' else None)
+            ps = I.plain(st)
+            ref = '[' + ', '.join(str(I.plain(e)) for e in lst.items) + ']' if isinstance(lst, ListV) else None
+            run.check(isinstance(ps, str) and ps == ref, 'REF.range-forms', 'cantera._get_omkm_range',
+                      'list form == string form', '[%s] string form %s is not the list form %s joined'
+                      % (tag, show(st, 160), show(lst, 160)), m, fn)
+    return n
+
+
+def known_respelling(run, repo, anchor):
+    """suffixes that are not written with four digits.  On the unchanged tree they are renamed (known finding); the
+    signature spells out which identifier comes back how, so that only this respelling is covered by the entry."""
+    m, fn, par = anchor
+    short = ['r_5', 'r_6', 'r_12', 's_007', 't_00042']
+    I = Interp(repo)
+    lst = call_range(I, anchor, ListV(list(short)), 'list', None, Obj('parent', repo.cls('pmutt._pmuttBase')))
+    if isinstance(lst, Raised):
+        # rejected with an error rather than altered: what the property asks for
+        run.check(lst.exc == 'ValueError', 'PATH.reject', 'cantera._get_omkm_range', 'suffix not four digits wide',
+                  'identifiers %s: rejected with %s, ValueError expected' % (short, lst.exc), m, fn)
+        return
+    got = expand(I, lst.items, '_') if isinstance(lst, ListV) else None
+    pairs = None
+    if got is not None:
+        back = {}
+        for g in got:
+            h_, s_, f_ = g.rpartition('_')
+            if f_.isdigit():
+                back.setdefault((h_, int(f_)), g)
+        pairs = ['%s->%s' % (s, back.get((s.rpartition('_')[0], int(s.rpartition('_')[2])), '(lost)')) for s in short]
+        pairs = [p_ for p_ in pairs if p_.split('->')[0] != p_.split('->')[1]]
+        if not pairs and set(got) != set(short):
+            pairs = ['added:%s' % ','.join(sorted(set(got) - set(short))[:4])]
+    sig = ' '.join(pairs) if pairs is not None else 'unreadable:%s' % show(lst, 80)
+    run.check(pairs == [], 'REF.range-spelling', 'cantera._get_omkm_range', 'suffix re-emitted with a fixed {:04d}',
+              'identifiers %s come back as %s (%s): a suffix that was not written with four digits is renamed instead '
+              'of being kept or rejected' % (short, show(lst, 120), sig), m, fn, sig=sig)
+
+
+# ---------------------------------------------------------------------------------------------------------------------
+# ranges, abstract identifiers
+
+def ranges(run, repo, anchor, thorough):
+    m, fn, par = anchor
     n = 0
     # (prefix parts, offsets in input order (duplicates allowed), digits of the printed suffix)
     offs = [[0], [3, 1, 2], [5, 7, 6, 9], [2, 2, 3], [10, 1, 2, 12, 11, 4], [0, 1, 3, 4, 6]]
+    # duplicates together with holes (as many duplicates as missing values and otherwise), duplicates inside and at the
+    # end of a run, nothing but duplicates
+    offs_dup = [[1, 1, 2, 3, 5], [2, 2, 4], [5, 5, 5, 8], [3, 1, 1, 4, 6, 6], [1, 2, 2, 3], [1, 2, 3, 3], [5, 5]]
     prefixes = [[('r', 1)], [('rxn', 3)], [], [('a', 1), ('b', 2)]]
     combos = [(pre, off, digits, '_') for pre, off, digits in itertools.product(prefixes, offs, (4, 5))]
     # a delimiter other than the default: the ids must come back with the delimiter they were given
     combos += [(pre, off, 4, dl) for pre, off, dl in itertools.product(prefixes[1:], offs[:3], ('-', '.'))]
-    for pre, off, digits, delim in combos:
+    len_old = len(combos)
+    combos += [(prefixes[(k + j) % 4], off, 4, '_') for k, off in enumerate(offs_dup) for j in (0, 2)]
+    combos += [(prefixes[1 + k % 3], offs_dup[k], 4, dl) for k, dl in enumerate(('-', '.'))]
+    len_quick = len(combos)
+    if thorough:
+        # every multiset of up to five offsets out of 0..5, given in descending order
+        seen = {tuple(sorted(o)) for o in offs + offs_dup}
+        for k in range(2, 6):
+            for ms in itertools.combinations_with_replacement(range(6), k):
+                if ms not in seen:
+                    combos.append((prefixes[(len(combos)) % 4], list(reversed(ms)), 4, '_'))
+    for ci, (pre, off, digits, delim) in enumerate(combos):
         for mixed in (False, True):
+            if ci >= len_quick and mixed:
+                continue
             I = Interp(repo)
             I.int_syms.update({'N', 'M'})       # the suffixes are integers (printed with d)
             D = I.D
@@ -91,17 +315,24 @@ def ranges(run, repo):
             label = 'prefix=%s suffix offsets=%s digits=%d%s%s' % (
                 delim.join(p[0] for p in pre) or '(none)', off, digits, ' +second prefix' if mixed else '',
                 '' if delim == '_' else ' delimiter=%r' % delim)
-            dkw = {} if delim == '_' else {'delimiter': delim}
-            objs_variants = [('strings', ListV([i[0] for i in ids])),
-                             ('objects with id', ListV([Obj('o%d' % k, attrs={'id': i[0]}) for k, i in enumerate(ids)]))]
-            for oname, objs in objs_variants:
-                lst = I.call_function(m, fn, [], dict({'objs': objs, 'format': 'list'}, **dkw))
-                st = I.call_function(m, fn, [], dict({'objs': objs}, **dkw))
+            texts = [i[0] for i in ids]
+            # strings and objects with id everywhere; objects with name / all three ways in one collection in turn
+            third = GIVEN_AS[2 + (ci // 3) % 2]
+            if ci < len_old:
+                hows = ['strings', 'objects with id'] + ([third] if not mixed and ci % 3 == 0 else [])
+            elif ci < len_quick:
+                hows = ['strings', third] if mixed else ['strings', 'objects with id']
+            else:
+                hows = ['strings']
+            for oname in hows:
+                lst = call_range(I, anchor, given_as(texts, oname), 'list', delim)
+                st = call_range(I, anchor, given_as(texts, oname), None, delim)
                 n += 1
                 if isinstance(lst, Raised) or isinstance(st, Raised):
                     run.fail('REF.range', 'cantera._get_omkm_range', 'raises', '[%s, %s] raises %s'
                              % (label, oname, show(lst if isinstance(lst, Raised) else st)), m, fn)
                     continue
+                spelling_decided(I, 'cantera._get_omkm_range [%s]' % label, m)
                 # denoted set: header -> set of suffix values
                 want = {}
                 for sid, val in ids:
@@ -140,13 +371,14 @@ def ranges(run, repo):
                           '[%s, %s] the ranges %s do not denote exactly the identifiers given'
                           % (label, oname, show(lst, 200)), m, fn,
                           sample='[%s] %s' % (label, show(st, 160)) if n % 17 == 0 else None)
-                if digits == 4 or True:
-                    run.check(renamed is None, 'REF.range-spelling', 'cantera._get_omkm_range',
-                              'suffix re-emitted with a fixed {:04d}',
-                              '[%s] identifier %s is written as %s: the suffix is re-formatted with four digits, so an '
-                              'id that was not zero-padded to four digits is renamed instead of being kept or rejected'
-                              % (label, show(renamed[0] if renamed else None, 60),
-                                 show(renamed[1] if renamed else None, 60)), m, fn)
+                # not the key of the known finding (suffixes that are not four digits wide): every identifier of these
+                # instances is written with four or five digits, none of them may come back respelled
+                run.check(renamed is None, 'REF.range-spelling', 'cantera._get_omkm_range',
+                          'every identifier keeps its spelling',
+                          '[%s, %s] identifier %s is written as %s: renamed instead of being kept or rejected'
+                          % (label, oname, show(renamed[0] if renamed else None, 60),
+                             show(renamed[1] if renamed else None, 60)), m, fn,
+                          sig=(lambda r_=renamed: '%s -> %s' % (show(r_[0], 60), show(r_[1], 60))))
                 # string form consistent with the list form
                 if isinstance(lst, ListV) and isinstance(st, (SegStr, str)):
                     joined = SegStr.lit('[')
@@ -158,83 +390,140 @@ def ranges(run, repo):
                     run.check(repr(I.seg(st)) == repr(joined), 'REF.range-forms', 'cantera._get_omkm_range',
                               'list form == string form', '[%s] string form %s is not the list form joined'
                               % (label, show(st, 160)), m, fn)
-    # short (non zero-padded) suffixes: 'r_5' must not be renamed
-    I = Interp(repo)
-    I.int_syms.add('N')
-    ids = [make_id(I, [('r', 1)], I.D.sym('N'), o, 1) for o in (5, 6)]
-    lst = I.call_function(m, fn, [], {'objs': ListV([i[0] for i in ids]), 'format': 'list'})
-    renamed = False
-    if isinstance(lst, ListV):
-        for e in lst.items:
-            for hdr, val, suf, whole in split_entry(I, e) or []:
-                if len(whole) != len(ids[0][0]):
-                    renamed = True
-    run.check(not renamed, 'REF.range-spelling', 'cantera._get_omkm_range', 'suffix re-emitted with a fixed {:04d}',
-              'identifiers with a one-digit suffix (r_5, r_6) come back four digits wide (r_0005): renamed, not '
-              'rejected', m, fn)
-    # ids that cannot be encoded are rejected
-    I = Interp(repo)
-    I.sym_strings[Z + 'word'] = (4, 'alpha')
-    for label, objs, exc in (('non-string id', ListV([Obj('o', attrs={'id': C(5)})]), 'TypeError'),
-                             ('non-integer suffix', ListV([SegStr.lit('r_') + SegStr.field(Z + 'word', 4, 'alpha')]),
-                              'ValueError')):
-        r = I.call_function(m, fn, [], {'objs': objs, 'parent_obj': Obj('parent', repo.cls('pmutt._pmuttBase'))})
-        run.check(isinstance(r, Raised) and r.exc == exc, 'PATH.reject', 'cantera._get_omkm_range', label,
-                  '%s must be rejected with %s, got %s' % (label, exc, show(r)), m, fn)
-    # concrete identifiers: suffixes that are no integers, and a run that crosses from four to five digits
-    for label, ids_ in (('suffix 1.5', ['r_0001', 'r_1.5', 'r_0002']), ('suffix 1e3', ['r_1e3']),
-                        ('suffix with a sign', ['r_-0002', 'r_0001'])):
-        I = Interp(repo)
-        r = I.call_function(m, fn, [], {'objs': ListV(list(ids_)), 'format': 'list',
-                                        'parent_obj': Obj('parent', repo.cls('pmutt._pmuttBase'))})
-        if label == 'suffix with a sign':
-            continue            # int('-0002') is an integer: what happens to it is not promised either way
-        run.check(isinstance(r, Raised) and r.exc == 'ValueError', 'PATH.reject', 'cantera._get_omkm_range', label,
-                  'identifiers %s: a suffix that is not an integer must be rejected with ValueError, got %s'
-                  % (ids_, show(r, 120)), m, fn)
-
-    def expand(entries):
-        out = []
-        for e in entries:
-            e = I.plain(e)
-            if not isinstance(e, str):
-                return None
-            e = e.strip().strip('"')
-            if ' to ' in e:
-                a_, b_ = e.split(' to ')
-                ha, fa = a_.rsplit('_', 1)
-                hb, fb = b_.rsplit('_', 1)
-                if ha != hb or not (fa.isdigit() and fb.isdigit()):
-                    return None
-                for k_ in range(int(fa), int(fb) + 1):
-                    # every member is spelled like the end it is counted from
-                    out.append('%s_%s' % (ha, str(k_).zfill(len(fa)) if len(fa) == len(fb) else str(k_)))
-            else:
-                out.append(e)
-        return out
-    for label, ids_ in (('four to five digits', ['r_9998', 'r_9999', 'r_10000', 'r_10001']),
-                        ('five digits', ['r_10000', 'r_10001', 'r_10003']),
-                        ('two prefixes, mixed order', ['s_0007', 'r_0002', 's_0008', 'r_0001', 'r_0004'])):
-        I = Interp(repo)
-        lst = I.call_function(m, fn, [], {'objs': ListV(list(ids_)), 'format': 'list'})
-        got = expand(lst.items) if isinstance(lst, ListV) else None
-        run.check(got is not None and sorted(got) == sorted(ids_), 'REF.range', 'cantera._get_omkm_range',
-                  'concrete identifiers: ' + label,
-                  'identifiers %s come back as %s, which denotes %s' % (ids_, show(lst, 120), got), m, fn,
-                  sample='%s -> %s' % (ids_, show(lst, 100)))
-        n += 1
-    r = I.call_function(m, fn, [], {'objs': ListV([])})
-    run.check(r == '[]', 'REF.range', 'cantera._get_omkm_range', 'empty', 'empty collection must give [] (got %s)'
-              % show(r), m, fn)
     return n
 
 
-def wrapping(run, repo, thorough):
+def rejections(run, repo, anchor):
+    """identifiers that cannot be encoded are rejected"""
+    m, fn, par = anchor
+    parent = Obj('parent', repo.cls('pmutt._pmuttBase'))
+    I = Interp(repo)
+    I.sym_strings[Z + 'word'] = (4, 'alpha')
+    nameless = Obj('o', attrs={'name': C(7)})
+    nameless.missing.add('id')
+    for label, objs, exc in (('non-string id', ListV([Obj('o', attrs={'id': C(5)})]), 'TypeError'),
+                             ('id None', ListV([Obj('o', attrs={'id': None}), 'r_0001']), 'TypeError'),
+                             ('id None after valid identifiers', ListV(['r_0001', Obj('o', attrs={'id': None})]),
+                              'TypeError'),
+                             ('non-string name', ListV([nameless]), 'TypeError'),
+                             ('a number in place of an identifier', ListV(['r_0001', C(3)]), 'TypeError'),
+                             ('non-integer suffix', ListV([SegStr.lit('r_') + SegStr.field(Z + 'word', 4, 'alpha')]),
+                              'ValueError')):
+        for form in (None, 'list'):
+            r = call_range(I, anchor, objs, form, None, parent)
+            run.check(isinstance(r, Raised) and r.exc == exc, 'PATH.reject', 'cantera._get_omkm_range', label,
+                      '%s must be rejected with %s, got %s' % (label, exc, show(r)), m, fn)
+    # concrete identifiers: suffixes that are no integers
+    for label, ids_ in (('suffix 1.5', ['r_0001', 'r_1.5', 'r_0002']), ('suffix 1e3', ['r_1e3']),
+                        ('empty suffix', ['r_0001', 'r_']), ('suffix of letters', ['r_0001', 'r_000a'])):
+        I = Interp(repo)
+        r = call_range(I, anchor, ListV(list(ids_)), 'list', None, parent)
+        # (a suffix with a sign, 'r_-0002': int() reads it as an integer; what happens to it is not promised either way)
+        run.check(isinstance(r, Raised) and r.exc == 'ValueError', 'PATH.reject', 'cantera._get_omkm_range', label,
+                  'identifiers %s: a suffix that is not an integer must be rejected with ValueError, got %s'
+                  % (ids_, show(r, 120)), m, fn)
+    for objs in (ListV([]), given_as([], 'tuple of strings')):
+        I = Interp(repo)
+        r = call_range(I, anchor, objs)
+        run.check(r == '[]', 'REF.range', 'cantera._get_omkm_range', 'empty', 'empty collection must give [] (got %s)'
+                  % show(r), m, fn)
+
+
+# ---------------------------------------------------------------------------------------------------------------------
+# wrapping
+
+def wrap_anchor(repo):
     m = repo.module('pmutt.io.cantera')
     fn = m.functions.get('obj_to_cti')
     if fn is None:
         raise AnchorError('pmutt.io.cantera.obj_to_cti not found')
-    run.fn('pmutt.io.cantera.obj_to_cti')
+    return m, fn
+
+
+SPECIES = ['"H2O(S)"', '"CO(S)"', '"OH(S)"', '"COOH(S)"', '"HCOO(S)"', '"CH3O(S)"', '"H(S)"', '"O(S)"', '"N2(S)"',
+           '"NH3(S)"', '"CO2(S)"', '"PT(S)"']
+HYPHENS = ['CO-Pt(S)', 'OH-Pt(S)', 'top-fcc', 'bridge-hcp', 'COOH-trans(S)', 'COOH-cis(S)', 'HCOO-bidentate(S)',
+           'CH3O-top(S)', 'formate-mono(S)', 'water-dimer(S)']
+CONCRETE_TOKENS = [
+    # (label, tokens, [(line_len, max_line_len)]): tokens spelled with the characters a CTI value is made of - a branch
+    # on the characters of a token is decided here, the symbolic instances cannot decide it
+    ('every token in its own quotes', SPECIES, [(40, 60), (30, 30), (80, 80)]),
+    ('quotes at both ends of the value', ['"site', 'fcc', 'hcp', 'top', 'bridge', 'hollow', 'step', 'kink', 'terrace',
+                                          'edge"'], [(30, 30), (40, 60)]),
+    ('one short quoted token', ['"a"'], [(30, 30)]),
+    ('hyphenated tokens', HYPHENS, [(40, 60), (30, 30)]),
+    ('comment signs, commas, colons', ['#first', 'x,', 'y,', '#', 'a:1', 'b=2', '(c)', '[d]', 'e;', "'f'", '#last',
+                                       'g\\h', 'i/j', '*', 'k%', '@l', '{m}', 'n!', 'o?', '~p'], [(30, 30), (50, 80)]),
+    ('equal neighbours', ['H2O', 'H2O', 'CO', 'CO', 'CO', 'OH', 'H2O', 'H2O', '1.0', '1.0', '1.0', '0', '0', 'x' * 30,
+                          'x' * 30, 'OH', 'OH'], [(30, 30), (40, 60)]),
+    ('digits only', ['%d' % (10 ** (k % 6)) for k in range(30)], [(30, 30), (100, 100)]),
+    ('single characters', list('abcdefghijklmnopqrstuvwxyzABCDEFGHIJKLMNOPQRSTUVWXYZ0123456789-+*/=<>()[]{}#,.;:!?')[:80],
+     [(30, 30), (40, 60)]),
+    ('tokens as long as the room of a line', ['H2O(S)', 'A' * 30, 'CO(S)', 'B' * 30, 'OH(S)'], [(33, 33), (33, 60)]),
+    ('tokens one shorter than the room of a line', ['H2O(S)', 'A' * 29, 'CO(S)', 'B' * 29, 'OH(S)'],
+     [(33, 33), (32, 60)]),
+    ('tokens of 27 characters', ['C' * 27, 'x', 'D' * 27, 'E' * 27], [(30, 30), (31, 31), (30, 100)]),
+    ('a token longer than a line', ['H2O', 'F' * 30, 'CO'], [(30, 30), (32, 40)]),
+]
+
+
+def read_back(text, line_len, max_len):
+    """reference reading of a CTI value: (tokens, (line, length, limit, items) of a line that is too long or None);
+    (None, None) when the text is not a quoted value"""
+    if len(text) >= 6 and text.startswith('"""') and text.endswith('"""'):
+        inner, q = text[3:-3], 3
+    elif len(text) >= 2 and text[0] == '"' and text[-1] == '"':
+        inner, q = text[1:-1], 1
+    else:
+        return None, None
+    bad = None
+    for li, line in enumerate(text.split('\n')):
+        limit = line_len if li == 0 else max_len
+        items = line.split()
+        if len(line) <= limit or not items:
+            continue
+        # a line may be too long only when it holds a single token that does not fit into the room a line offers
+        # (the requested width less the three columns of the quotes / of the indentation under them)
+        w = len(items[0]) - (q if li == 0 else 0)
+        if len(items) > 1 or w <= line_len - 3:
+            bad = bad or (li, len(line), limit, len(items))
+    return inner.split(), bad
+
+
+def wrapping_concrete(run, repo, anchor, thorough):
+    m, fn = anchor
+    n = 0
+    for label, toks, limits in CONCRETE_TOKENS:
+        for (line_len, max_len), form in itertools.product(limits, ('list', 'tuple', 'string')):
+            I = Interp(repo)
+            if form == 'string':
+                obj = ' '.join(toks)
+            else:
+                obj = ListV(list(toks))
+                obj.frozen = form == 'tuple'
+            out = I.call_function(m, fn, [], {'obj': obj, 'line_len': C(line_len), 'max_line_len': C(max_len)})
+            n += 1
+            tag = '%s: %s ... (%d tokens) line_len=%d max_line_len=%d given as %s' % (
+                label, ' '.join(toks[:3]), len(toks), line_len, max_len, form)
+            if isinstance(out, Raised):
+                run.fail('REF.wrap', 'io.cantera.obj_to_cti', 'raises', '[%s] raises %s' % (tag, out.exc), m, fn)
+                continue
+            text = I.plain(out)
+            if not isinstance(text, str):
+                raise Unsupported('obj_to_cti of concrete tokens gives %s, a text expected' % show(out, 80), fn,
+                                  m.relpath)
+            got, bad = read_back(text, line_len, max_len)
+            run.check(got == toks, 'REF.wrap-tokens', 'io.cantera.obj_to_cti', 'every token once, in order',
+                      '[%s] the wrapped text reads %s' % (tag, (got or text)[:14]), m, fn,
+                      sample='[%s] -> %d lines' % (tag, text.count('\n') + 1) if form == 'list' else None)
+            run.check(bad is None, 'REF.wrap-width', 'io.cantera.obj_to_cti', 'line width',
+                      '[%s] line %s is %s characters long (limit %s) although it holds %s items (tokens, closing '
+                      'quotes)' % ((tag,) + (bad or (0, 0, 0, 0))), m, fn)
+    return n
+
+
+def wrapping(run, repo, anchor, thorough):
+    m, fn = anchor
     n = 0
     widths_sets = [[], [5], [30], [10, 10, 10], [30, 30, 30, 30], [1] * 40, [29, 1, 29, 1, 29, 1, 29],
                    [12, 7, 3, 25, 30, 8, 8, 8, 14, 2, 2, 2, 19, 30, 30, 1, 5], [75, 3, 80, 2], [95],
@@ -244,21 +533,30 @@ def wrapping(run, repo, thorough):
     if thorough:
         widths_sets += [[w] * k for w in (7, 15, 26) for k in (3, 9, 20)]
     cases = [(w_, l_, 'list') for w_, l_ in itertools.product(widths_sets, limits)]
+    # token widths derived from the limits: tokens that just fit into the room of a line (the requested width less the
+    # three columns of the quotes / of the indentation), alone on their line, and the first one that does not
+    for l_ in limits + [(33, 33), (32, 60), (31, 100)]:
+        L = l_[0]
+        cases.append(([5, L - 4, 5, L - 3, 5, L - 2, 5], l_, 'list'))
+        cases.append(([L - 3, 5, L - 3, L - 4, L - 5], l_, 'list'))
+        if thorough or L < 40:
+            cases.append(([L - 2, L - 3, 1, L - 3], l_, 'list'))
+            cases.append(([3, L - 5, L - 3, 2, L - 4], l_, 'tuple'))
     # the same value handed over as a tuple and as one blank-separated string
     cases += [(w_, l_, f_) for w_, l_, f_ in itertools.product(
         ([10, 10, 10], [29, 1, 29, 1, 29, 1, 29], [12, 7, 3, 25, 30, 8, 8, 8, 14, 2, 2, 2, 19, 30, 30, 1, 5], [5]),
         ((80, 80), (40, 60)), ('tuple', 'string'))]
-    # a value in which tokens repeat (a species listed twice, equal numbers)
-    cases += [([10, 10, 10, 10, 10, 10, 10, 10], l_, 'repeated') for l_ in ((80, 80), (40, 60))]
+    # a value in which tokens repeat (a species listed twice, equal numbers), apart and side by side
+    cases += [([10, 10, 10, 10, 10, 10, 10, 10], l_, f_) for l_ in ((80, 80), (40, 60))
+              for f_ in ('repeated', 'repeated side by side')]
     for widths, (line_len, max_len), form in cases:
         I = Interp(repo)
         toks = []
         for k, w in enumerate(widths):
-            key = Z + 'tok%d' % (k % 3 if form == 'repeated' else k)
+            key = Z + 'tok%d' % (k % 3 if form == 'repeated' else (k // 2) % 3 if form.startswith('repeated') else k)
             I.sym_strings[key] = (w, 'any')          # tokens of a CTI value are free text without blanks
             toks.append(key)
         if form == 'string':
-            from ..absstr import SegStr
             obj = SegStr([])
             for k, t_ in enumerate(toks):
                 obj = obj + (' ' if k else '') + SegStr.field(t_, widths[k], 'any')
@@ -274,6 +572,7 @@ def wrapping(run, repo, thorough):
         if isinstance(out, Raised):
             run.fail('REF.wrap', 'io.cantera.obj_to_cti', 'raises', '[%s] raises %s' % (label, out.exc), m, fn)
             continue
+        spelling_decided(I, 'io.cantera.obj_to_cti [%s]' % label, m)
         sb = I.seg(out)
         got = [s.value for s in sb.segs if s.kind == 'field']
         run.check(got == toks, 'REF.wrap-tokens', 'io.cantera.obj_to_cti', 'every token once, in order',
@@ -311,21 +610,41 @@ def wrapping(run, repo, thorough):
 
 def check(run, repo):
     run.explanation = (
-        '_get_omkm_range is interpreted over abstract identifiers (symbolic prefix text, literal delimiter, suffix '
-        'N+k with a symbolic base and concrete offsets, printed with a known width): for 4 prefix shapes (one, long, '
-        'empty, containing the delimiter) x 6 offset patterns (single, unsorted, gaps, duplicates) x 2 suffix widths '
-        'x optional interleaved second prefix x strings/objects, the emitted ranges are expanded again and must denote '
-        'exactly the identifiers given, each spelled as it came; list and string forms agree; non-string ids and '
-        'non-integer suffixes are rejected. obj_to_cti is interpreted over token lists with symbolic contents and '
-        'concrete widths: every token appears once, in order, only separators are added, and no line exceeds its limit '
-        'unless it holds a single token.')
+        '_get_omkm_range is interpreted (a) over concrete identifier collections - four- and five-digit suffixes under '
+        'one prefix in every order, duplicates together with holes, one to three prefixes (empty, containing the '
+        'delimiter, of different widths), three delimiters, sixty identifiers - handed over as strings, objects with '
+        'id, objects with name only, all three mixed, and as a tuple: the emitted ranges are expanded again by a '
+        'reference reading of the notation and must denote exactly the identifiers given, list and string forms '
+        'agree; (b) over abstract identifiers (symbolic prefix text, literal delimiter, suffix N+k with a symbolic '
+        'base and concrete offsets, printed with a known width): 4 prefix shapes x 13 offset patterns (single, '
+        'unsorted, gaps, duplicates, duplicates with holes) x 2 suffix widths x optional interleaved second prefix x '
+        'ways of handing them over, each identifier spelled as it came; ids that are no strings (also None) and '
+        'suffixes that are no integers are rejected in both output forms. obj_to_cti is interpreted over concrete '
+        'token lists (quoted, hyphenated, punctuated, equal neighbours, tokens as long as the room of a line) and '
+        'over token lists with symbolic contents and concrete widths, including widths derived from the limits '
+        '(line_len-4, -3, -2): every token appears once, in order, only separators are added, and no line exceeds its '
+        'limit unless it holds a single token that cannot fit. A branch on the characters of a symbolic identifier or '
+        'token leaves the symbolic instance undecided (analysis error), it is never read as "not taken".')
     run.assumptions = ['more_itertools.consecutive_groups groups runs of +1 in the order given',
                        'the suffix of an identifier is an integer base+offset (ordering and gaps decided on offsets)']
     run.undecided = ['identifiers whose prefix text ends in digits adjacent to the suffix without delimiter',
+                     'identifiers whose prefix contains brackets or ", " (the list form is cut out of the string form)',
                      'token lists beyond the enumerated width patterns']
-    n = ranges(run, repo)
+    thorough = run.tier == 'thorough'
+    ra = range_anchor(repo)
+    wa = wrap_anchor(repo)
+    run.fn('pmutt.cantera._get_omkm_range')
+    run.fn('pmutt.io.cantera.obj_to_cti')
+    # concrete instances first: they are decided whatever the code asks about the characters of an identifier/token
+    n = ranges_concrete(run, repo, ra, thorough)
+    run.floor('range cases, concrete identifiers', n, 55)
+    known_respelling(run, repo, ra)
+    rejections(run, repo, ra)
+    n = wrapping_concrete(run, repo, wa, thorough)
+    run.floor('wrapping cases, concrete tokens', n, 70)
+    n = ranges(run, repo, ra, thorough)
     run.floor('range cases', n, 150)
-    n = wrapping(run, repo, run.tier == 'thorough')
+    n = wrapping(run, repo, wa, thorough)
     run.floor('wrapping cases', n, 50)
 
 
@@ -346,5 +665,84 @@ MUTANTS = [
      'edits': [(W_, "                    cti_lines.append('{}{}'.format(header_spaces, cti_val))", "                    cti_lines.append('{}'.format(header_spaces))")]},
     {'name': 'wrap: limit off by the separator', 'expect': ('REF.wrap-width', 'obj_to_cti'),
      'edits': [(W_, 'elif (len(cti_lines[-1]) + len(cti_val) + 1) <= line_limit:', 'elif (len(cti_lines[-1]) + len(cti_val) - 3) <= line_limit:')]},
+    # ---- white-box round 2
+    {'name': 'ranges: fast path for one contiguous block counts duplicates', 'expect': ('REF.range', '_get_omkm_range'),
+     'edits': [(C_, '            footer_ranges = mit.consecutive_groups(footer_list)',
+                '            footer_ranges = ([footer_list] if footer_list[-1] - footer_list[0] + 1 == len(footer_list)'
+                ' else mit.consecutive_groups(footer_list))')]},
+    {'name': 'ranges: zero padding taken from the first id of a prefix', 'expect': ('REF.range', '_get_omkm_range'),
+     'edits': [(C_, '        unique_headers = {}\n', '        unique_headers = {}\n        footer_widths = {}\n'),
+               (C_, '            # Convert footer to integer so more_itertools can process it\n',
+                '            footer_widths.setdefault(header, len(footer))\n'),
+               (C_, "                    CTI_range = '\"{}{:04d}\", '.format(header_delim,\n"
+                    "                                                      footer_range[0])",
+                "                    CTI_range = '\"{0}{1:0{2}d}\", '.format(header_delim, footer_range[0], "
+                "footer_widths[header])"),
+               (C_, "                    CTI_range = ('\"{0}{1:04d} to {0}{2:04d}\", '\n"
+                    "                                 ''.format(header_delim, footer_range[0],\n"
+                    "                                           footer_range[-1]))",
+                "                    CTI_range = ('\"{0}{1:0{3}d} to {0}{2:0{3}d}\", '\n"
+                "                                 ''.format(header_delim, footer_range[0],\n"
+                "                                           footer_range[-1], footer_widths[header]))")]},
+    {'name': 'ranges: ids with another delimiter printed six digits wide', 'expect': ('REF.range-spelling', '_get_omkm_range'),
+     'edits': [(C_, "                    CTI_range = '\"{}{:04d}\", '.format(header_delim,",
+                "                    CTI_range = ('\"{}{:04d}\", ' if delimiter == '_' else '\"{}{:06d}\", ').format(header_delim,")]},
+    {'name': 'ranges: an object whose id is None is skipped', 'expect': ('PATH.reject', '_get_omkm_range'),
+     'edits': [(C_, '            # Check that obj_id is a string type\n',
+                '            if obj_id is None:\n                continue\n')]},
+    {'name': 'ranges: the name of an object is not consulted', 'expect': ('REF.range', '_get_omkm_range'),
+     'edits': [(C_, '                    obj_id = obj.name', '                    obj_id = obj.label')]},
+    {'name': 'ranges: way of reading the id decided once from the first element', 'expect': ('REF.range', '_get_omkm_range'),
+     'edits': [(C_, '                obj_id = obj.id\n',
+                "                obj_id = obj.id if hasattr(objs[0], 'id') or not isinstance(objs[0], str) else obj\n")]},
+    {'name': 'wrap: a value that carries its quotes is returned as it is', 'expect': ('REF.wrap', 'obj_to_cti'),
+     'edits': [(W_, '        cti_str_len = len(cti_str)\n',
+                "        if cti_str.startswith('\"') and cti_str.endswith('\"'):\n            return cti_str\n"
+                "        cti_str_len = len(cti_str)\n")]},
+    {'name': 'wrap: continuation lines one column deeper', 'expect': ('REF.wrap-width', 'obj_to_cti'),
+     'edits': [(W_, "            header_spaces = ' ' * (max_line_len - line_len + 3)",
+                "            header_spaces = ' ' * (max_line_len - line_len + 4)")]},
+    {'name': 'wrap: continuation lines two columns deeper', 'expect': ('REF.wrap-width', 'obj_to_cti'),
+     'edits': [(W_, "            header_spaces = ' ' * (max_line_len - line_len + 3)",
+                "            header_spaces = ' ' * (max_line_len - line_len + 5)")]},
+    {'name': 'wrap: a token equal to its left neighbour is dropped', 'expect': ('REF.wrap-tokens', 'obj_to_cti'),
+     'edits': [(W_, '                if len(cti_lines) == 1:\n',
+                '                if i > 0 and cti_val == cti_list[i - 1]:\n                    continue\n'
+                '                if len(cti_lines) == 1:\n')]},
+    {'name': 'wrap: tokens that start with # are dropped', 'expect': ('REF.wrap-tokens', 'obj_to_cti'),
+     'edits': [(W_, '                if len(cti_lines) == 1:\n',
+                "                if i > 0 and cti_val.startswith('#'):\n                    continue\n"
+                '                if len(cti_lines) == 1:\n')]},
+    {'name': 'wrap: tokens split at hyphens', 'expect': ('REF.wrap-tokens', 'obj_to_cti'),
+     'edits': [(W_, "            cti_list = cti_str.split(' ')", "            cti_list = cti_str.replace('-', '- ').split(' ')")]},
 ]
-EQUIV = []
+R_ = 'pmutt/omkm/reaction.py'
+EQUIV = [
+    {'name': 'the id is looked up with hasattr instead of try/except',
+     'edits': [(C_, '            try:\n                obj_id = obj.id\n            except AttributeError:\n'
+                    '                try:\n                    obj_id = obj.name\n'
+                    '                except AttributeError:\n                    obj_id = obj\n',
+                "            if hasattr(obj, 'id'):\n                obj_id = obj.id\n"
+                "            elif hasattr(obj, 'name'):\n                obj_id = obj.name\n"
+                "            else:\n                obj_id = obj\n")]},
+    {'name': 'the fill keeps a running length instead of measuring the last line',
+     'edits': [(W_, "            cti_lines = ['\"\"\"']\n", "            cti_lines = ['\"\"\"']\n            used = 3\n"),
+               (W_, "                    cti_lines[-1] = '{}{}'.format(cti_lines[-1], cti_val)\n",
+                "                    cti_lines[-1] = '{}{}'.format(cti_lines[-1], cti_val)\n"
+                "                    used += len(cti_val)\n"),
+               (W_, "                elif (len(cti_lines[-1]) + len(cti_val) + 1) <= line_limit:\n"
+                    "                    cti_lines[-1] = '{} {}'.format(cti_lines[-1], cti_val)\n",
+                "                elif used + len(cti_val) + 1 <= line_limit:\n"
+                "                    cti_lines[-1] = '{} {}'.format(cti_lines[-1], cti_val)\n"
+                "                    used += len(cti_val) + 1\n"),
+               (W_, "                    cti_lines.append('{}{}'.format(header_spaces, cti_val))\n",
+                "                    cti_lines.append('{}{}'.format(header_spaces, cti_val))\n"
+                "                    used = len(header_spaces) + len(cti_val)\n")]},
+    {'name': "the helper's keyword format renamed to out_format (helper and its keyword callers)",
+     'edits': [(C_, "delimiter='_', format='str'):", "delimiter='_', out_format='str'):"),
+               (C_, "        if format == 'list':", "        if out_format == 'list':"),
+               (R_, "parent_obj=self,\n                                                  format='list')",
+                "parent_obj=self,\n                                                  out_format='list')"),
+               (R_, "parent_obj=self,\n                                                 format='list')",
+                "parent_obj=self,\n                                                 out_format='list')")]},
+]
